@@ -4,6 +4,7 @@
 package main
 
 import (
+	"syscall"
 	"bufio"
 	"encoding/json"
 	"flag"
@@ -118,6 +119,25 @@ func coqBool(b bool) string {
 }
 
 // loadReplay decodes the "input" member of a replay file into v.
+// The continuous recorder deletes recordings - and refuses to start when there is nothing left to delete - while
+// 30 % or less of the file system's blocks are available (deleteExcessRecordings).  That depends on the machine the
+// checks run on, not on the code under test: on such a file system the scenarios with the continuous recorder
+// switched on are generated with it off (and say so), instead of reporting the recorder's refusal as a violation.
+var constOK = func() bool {
+	if os.Getenv("VERIF_NOCONST") != "" { // (to try the fallback on a machine with plenty of space)
+		return false
+	}
+	var fs syscall.Statfs_t
+	if err := syscall.Statfs(runDir(), &fs); err != nil || fs.Blocks == 0 {
+		return true
+	}
+	ok := fs.Bavail*100/fs.Blocks > 40
+	if !ok {
+		fmt.Fprintln(os.Stderr, "NOTE: 40 % or less of the run directory's file system is available: scenarios with the continuous recorder on are generated with it off")
+	}
+	return ok
+}()
+
 func loadReplay(v interface{}) bool {
 	if replayInput == "" {
 		return false
